@@ -1,6 +1,7 @@
 import Otel.Base.Wire
 import Otel.C06.Sched
 import Otel.C06.Spec
+import Otel.C06.DeepDrv
 open Otel Otel.Wire Otel.C06
 
 /-! Line kinds
@@ -234,6 +235,6 @@ def stepLine (_ : Unit) (toks : List String) : Unit × Option Verdict :=
       ((), some { agree := true, spec := spec ++ (if bad.isEmpty then "" else ":" ++ ",".intercalate bad),
                   nontrivial := nExp ≥ 1, branches := br, model := "-" })
     | _, _, _ => ((), none)
-  | _ => ((), none)
+  | _ => ((), Deep.stepLine toks)      -- `ring` / `chain` / `rec` lines of the struct leg (DeepDrv.lean)
 
 def main : IO Unit := Wire.run () stepLine
